@@ -12,10 +12,18 @@ Clouds2 == { {<<0, 0>>, <<4, 0>>, <<0, 3>>},                                   \
 Clouds3 == { {<<0, 0, 0>>, <<3, 0, 0>>, <<0, 3, 0>>, <<0, 0, 3>>, <<1, 1, 1>>},
              {<<0, 0, 0>>, <<2, 0, 0>>, <<0, 2, 0>>, <<2, 2, 0>>, <<0, 0, 2>>, <<2, 0, 2>>, <<0, 2, 2>>, <<2, 2, 2>>} }
 
+(* gamuts of registered systems (2 receptors; more sources than receptors included): the corner cloud of the   *)
+(* zonotope {A x : 0 <= x <= ub}.  Samples drawn through the estimator must be uniform over this polygon.      *)
+Systems2 == { [A |-> <<<<3, 1, 0>>, <<0, 1, 2>>>>, ub |-> <<1, 1, 1>>],
+              [A |-> <<<<3, 1, 0, 2>>, <<0, 1, 2, 1>>>>, ub |-> <<1, 1, 1, 1>>],
+              [A |-> <<<<2, 1>>, <<1, 3>>>>, ub |-> <<2, 1>>] }
 Init == pc = "init" /\ out = <<>>
 Next == /\ pc = "init"
-        /\ \/ \E P \in Clouds2 : out' = [d |-> 2, P |-> P, F |-> HullFacets(P), regions |-> FanRegions(P), area2 |-> PolyArea2(P)]
-           \/ \E P \in Clouds3 : out' = [d |-> 3, P |-> P, F |-> HullFacets(P), regions |-> {}, area2 |-> 0]
+        /\ \/ \E P \in Clouds2 : out' = [d |-> 2, P |-> P, F |-> HullFacets(P), regions |-> FanRegions(P), area2 |-> PolyArea2(P), A |-> <<>>, ub |-> <<>>]
+           \/ \E P \in Clouds3 : out' = [d |-> 3, P |-> P, F |-> HullFacets(P), regions |-> {}, area2 |-> 0, A |-> <<>>, ub |-> <<>>]
+           \/ \E s \in Systems2 :
+                LET P == ZonoCloud(s.A, Vec(Len(s.ub), 0), s.ub)
+                IN out' = [d |-> 2, P |-> P, F |-> HullFacets(P), regions |-> FanRegions(P), area2 |-> PolyArea2(P), A |-> s.A, ub |-> s.ub]
         /\ pc' = "done"
 Spec == Init /\ [][Next]_vars
 (* the fan regions tile the hull: their areas add up to the hull area *)
